@@ -210,11 +210,6 @@ theorem opStep_mono (m : ModelT) (w : String) (acc : Rel × List Problem) (x : (
   | none => exact hp
   | some lg => exact relList_mono _ _ _ _ _ (relList_mono _ _ _ _ _ (relList_mono _ _ _ _ _ hp))
 
-def specOuts2 (ps : PSub) : List Nat :=
-  match ps.sg.originalOutputPositions with
-  | none => removeVirtual ps.sg.outputTensors ps.sg.virtualOutputs
-  | some pos => pos.filterMap ((removeVirtual ps.sg.outputTensors ps.sg.virtualOutputs)[·]?)
-
 def specOps (ps : PSub) : List POp := (clearVirtual ps.ops ps.sg.virtualOutputs).filter (!·.ignored)
 
 def relIn (k : Nat) (ps : PSub) (f : SubGraphT) : Rel × List Problem :=
@@ -625,12 +620,8 @@ theorem write_sgFacts (d : Desc) (enum : List Code) (m : ModelT) (h : writeWith 
 
 /-! ## the domain, executable -/
 
-def sgDomainB (ps : PSub) : Bool :=
-  (specOuts2 ps).all (fun g => (sgSet ps).contains g) &&
-  ps.ops.all (fun p => !(p.placeholder && p.ignored) || (p.inputs ++ p.intermediates).all (· == none))
-
 theorem sgDomain_of_B (ps : PSub) (h : sgDomainB ps = true) : SgDomain ps := by
-  unfold sgDomainB at h
+  unfold sgDomainB outsWrittenB placeholdersPlainB at h
   simp only [Bool.and_eq_true, List.all_eq_true, List.contains_iff_mem, Bool.or_eq_true, Bool.not_eq_true', beq_iff_eq] at h
   refine ⟨fun g hg => by simpa using h.1 g hg, ?_⟩
   intro p hp hpl hig g hg
@@ -638,14 +629,6 @@ theorem sgDomain_of_B (ps : PSub) (h : sgDomainB ps = true) : SgDomain ps := by
   · simp [hpl, hig] at h1
   · have := h1 _ hg
     simp at this
-
-/-- the domain of `conforms_write`, as a checker: at least one subgraph is written (otherwise buffer 0 is the `vela_version`
-buffer), every subgraph output is a written tensor, Placeholders have no operands of their own -/
-def conformsDomainB (d : Desc) : Bool :=
-  !(subgraphsToWrite d).isEmpty &&
-  match (subgraphsToWrite d).mapM (prepSub d.tensors) with
-  | .ok subs => subs.all sgDomainB
-  | .error _ => true
 
 theorem forall₂_of_getElem? {α β : Type} (R : α → β → Prop) : ∀ (l₁ : List α) (l₂ : List β), l₁.length = l₂.length →
     (∀ (i : Nat) a b, l₁[i]? = some a → l₂[i]? = some b → R a b) → List.Forall₂ R l₁ l₂
